@@ -23,7 +23,7 @@ def items(tier, seed):
                          ('durs', {'values': [0, 1, 2] if th else [1, 2]})]},
         job_open=JOB if th else dict(JOB, dur=[0, 'never']),
         top_open={'timeout': [0, 1, 2, 3], 'k': ['nest']},
-        extra=_base.X_THASH, pre=True, k=3 if th else 2, bound=3 if th else 2)
+        extra=_base.X_THASH, pre=True, k=2, bound=3 if th else 2)
     yield from spaces.mk(
         ['flat4'], th, force='windows', fargs={'values': [1, 2, 3]},
         job_open={'dur': [0, 2], 'out': ['raise'], 'cdelay': [1]},
